@@ -147,9 +147,18 @@ def body_engine(L, reasons=REASONS, narrow=False):
             for step in range(L):
                 if not eng.isAlive():
                     break
-                r = ctx.choice('exit%d' % step, reasons)
+                r = ctx.choice('exit%d' % step, list(reasons) + ['Killed-before-launch'])
                 tracker.new_step()
-                eng._setExitReason(r)
+                if r == 'Killed-before-launch':
+                    # kill() arrives after run()/restart() returned but before the task is launched: the launch
+                    # pipeline ends in HandleTaskObservableException -> _setExitReason(Killed); engine.process is
+                    # whatever restart() left behind
+                    r = 'Killed'
+                    eng._setExitReason('Killed')
+                else:
+                    eng.process = _StubProc(r)      # the launched task, as LaunchTask would have stored it
+                    eng._setExitReason(r)
+                ctx.check(eng.exitReason() == r, 'the engine reports the exit reason of its last execution', (hist, r, eng.exitReason()))
                 before = eng.run_calls
                 ctl.postMortemCheck(comp.state, comp)
                 n = eng.run_calls - before
@@ -251,8 +260,13 @@ def body_step():
             p.set(experiment.model.hooks, 'import_hooks_restart', import_hook)
             p.set(control, 'time', types.SimpleNamespace(sleep=lambda s: None))
             p.set(monitor_mod.MonitorExceptionTracker, 'defaultTracker', classmethod(lambda cls: tracker))
-            r = ctx.choice('exit', REASONS)
-            eng._setExitReason(r)
+            r = ctx.choice('exit', REASONS + ['Killed-before-launch'])
+            if r == 'Killed-before-launch':
+                r = 'Killed'
+                eng._setExitReason('Killed')
+            else:
+                eng.process = _StubProc(r)
+                eng._setExitReason(r)
             ctl.postMortemCheck(comp.state, comp)
             n = eng.run_calls - 1
             ctx.check(n <= 1, 'at most one new execution per task exit', r)
